@@ -239,12 +239,12 @@ def bare(nodes, edges, cls="hg", gattr=None):
             "eattr": [[e[0], []] for e in a["edges"]], "gattr": gattr or []}
 
 
-def str_first_label():
-    """a string label that Python's set iteration puts *before* the int 7 in this process (string hashes are
+def str_first_label(ints):
+    """a string label that Python's set iteration puts *before* the given ints in this process (string hashes are
     per-process), so that the first edge of a hyperedge list starts with a string"""
     for s in "abcdefghijklmnopqrstuvwxyz":
         H = xgi.Hypergraph()
-        H.add_edge([7, s])
+        H.add_edge(ints + [s])
         if isinstance(list(xgi.to_hyperedge_list(H)[0])[0], str):
             return s
     return None
@@ -265,9 +265,10 @@ def fixed_cases(rng):
         bare(["10", "9"], [("e", ["10", "9"])]),                    # digit strings
         bare([1, 2, 3], [(0, [1, 2, 3])], gattr=[["name", "foo"]]),
     ]
-    s = str_first_label()
-    if s is not None:
-        nets.append(bare([7, s, 2], [(0, [7, s]), (1, [2, 7])]))   # first edge a mixed set whose iteration starts with a str
+    for ints in ([7], [6, 7]):   # first edge a mixed set whose iteration starts with a str (2 and 3 members)
+        s = str_first_label(ints)
+        if s is not None:
+            nets.append(bare(ints + [s, 2], [(0, ints + [s]), (1, [2, 7])]))
     for a in nets:
         out += L.cases_for(rng, a)
     d = {"cls": "dhg", "nodes": [1, 2, 3], "edges": [[0, [1, 2], [3]], [1, [], []], [2, [3], [3]]],
